@@ -407,6 +407,9 @@ Section WithPrint3.
     destruct (is_mksh l && (65533 <? r)) eqn:Emk; [discriminate|].
     apply orb_false_iff in Ex. destruct Ex as [Hge Hinv].
     destruct (entry_valid r bs Hok Hinv) as [He _].
+    assert (Hsv : (MaxRune <? r) || in_range 55296 57343 r = false).
+    { destruct Hok as [_ D]; cbn [fst snd] in D. destruct (decode_range bs r _ D) as [A B].
+      unfold in_range, MaxRune in *. lia. }
     destruct (r <? 65536) eqn:Eu.
     - (* \uHHHH *)
       injection H as <- <-. split; [|discriminate].
@@ -414,14 +417,16 @@ Section WithPrint3.
       + destruct last; reflexivity.
       + apply hex_run; [right; left; reflexivity|].
         change (16 ^ N.of_nat 4) with 65536. rewrite N.mod_small by lia.
-        unfold emit. destruct (0 * 65536 + r =? 0) eqn:E0; [lia|]. rewrite <- He. reflexivity.
+        unfold emit. destruct (0 * 65536 + r =? 0) eqn:E0; [lia|].
+        change (0 * 65536 + r) with r. rewrite Hsv, <- He. reflexivity.
     - (* \UHHHHHHHH *)
       injection H as <- <-. split; [|discriminate].
       apply (usteps_app l [92; 85] (hex_fixed 8 r) (st_of last) (UAnsiNum KBigU 8 0 0) [] (after_emit l KBigU) bs).
       + destruct last; reflexivity.
       + apply hex_run; [right; right; reflexivity|].
         change (16 ^ N.of_nat 8) with 4294967296. unfold MaxRune in Emax. rewrite N.mod_small by lia.
-        unfold emit. destruct (0 * 4294967296 + r =? 0) eqn:E0; [lia|]. rewrite <- He. reflexivity.
+        unfold emit. destruct (0 * 4294967296 + r =? 0) eqn:E0; [lia|].
+        change (0 * 4294967296 + r) with r. rewrite Hsv, <- He. reflexivity.
   Qed.
 End WithPrint3.
 
